@@ -34,6 +34,14 @@ static void load_inputs(void) {
 #endif
 }
 
+
+/* representation invariant of a session table as far as consumers outside the table code rely on it */
+static bool tab_consistent(const session_table *t) {
+    unsigned nv = 0; bool allc = true;
+    for (int i = 0; i < SESSION_TABLE_MAX_ENTRIES; i++) if (t->entries[i].valid) { nv++; if (!t->entries[i].complete) allc = false; }
+    return t->count == nv && t->all_complete == allc;
+}
+
 static bool st_is_own(const uint8_t *f, unsigned i) {
     const uint8_t *s = f + 36 + 6 * i;
     return s[0] == in.own[0] && s[1] == in.own[1] && s[2] == in.own[2] && s[3] == in.own[3] && s[4] == in.own[4] && s[5] == in.own[5];
@@ -44,7 +52,7 @@ void h_classify(void) {
     uint8_t *f = (uint8_t *)v_alloc(MTU);
     memcpy(f, in.frame, MTU);
     session_table *T = 0;
-    if (in.have_tab) { T = session_table_create(); V_ASSUME(T != 0); *T = in.tab; }
+    if (in.have_tab) { T = session_table_create(); V_ASSUME(T != 0); *T = in.tab; V_ASSUME(tab_consistent(T)); }
 
     uint8_t opcode = f[17];
     unsigned count = ((unsigned)f[34] << 8) | f[35];
